@@ -25,6 +25,7 @@ def main():
     dst = os.path.join(scratch, 'repo')
     try:
         shutil.copytree('/repo', dst, ignore=shutil.ignore_patterns('.git', '__pycache__', '*.pyc'))
+        label = ' '.join(a.strip()[:50].replace('\n', ' ') for a in args[:3])
         if args[0] == '--patch':
             r = subprocess.run(['patch', '-p1', '-d', dst, '-i', os.path.abspath(args[1])], capture_output=True, text=True)
             if r.returncode:
@@ -44,7 +45,7 @@ def main():
         env = dict(os.environ, VERIF_REPO=dst, VERIF_NO_EVIDENCE='1')
         r = subprocess.run(['/verif/check', prop, '--tier', tier], env=env, capture_output=True, text=True)
         lines = [l for l in r.stdout.splitlines() if l.startswith(('VIOLATION', 'INCONCLUSIVE', 'KNOWN', prop))]
-        print('exit=%d' % r.returncode)
+        print('exit=%d  [%s]' % (r.returncode, label))
         print('\n'.join(l[:400] for l in lines[:6]))
         if r.returncode not in (0, 1, 2):
             print(r.stderr[-2000:])
